@@ -12,6 +12,10 @@ R22d  ``LintingResult.stats``: the "exit code" entry is ``fail_code`` exactly wh
 R22e  exit constants: EXIT_SUCCESS=0, EXIT_FAIL=1, EXIT_ERROR=2; the CLI user-error
       handler exits with EXIT_ERROR; the three commands run their linter calls
       inside that handler; ``--nofail`` is the only way lint ignores its exit code.
+R22f  every violation handed to a ``LintedFile`` has had the ``ignore`` and
+      ``warnings`` configuration applied: the list passed to the constructor is
+      flagged by a loop calling ``ignore_if_in`` and ``warning_if_in`` on every
+      element, unconditionally, after the list's last extension.
 (R22c — user errors through the runners' funnels — lives with C24's R24d.)
 """
 
@@ -238,6 +242,10 @@ def run(chk) -> None:
                 )
     chk.floor("R22b.advance_sites", 2)
 
+    # ---- R22f ---------------------------------------------------------------------
+    chk.rule("R22f", "every violation handed to a LintedFile had ignore_if_in and warning_if_in applied (flagging loop over the whole list after its last extension)")
+    _r22f(chk, repo)
+
     # ---- R22e: constants and handler ----------------------------------------------
     init = repo.mod(CLI_INIT)
     consts = {}
@@ -291,9 +299,114 @@ def run(chk) -> None:
             chk.require(ok, "R22e", c, "lint exits EXIT_SUCCESS unconditionally on a path not governed by --nofail", detail="lint: success exit only under nofail")
 
 
+def _r22f(chk, repo) -> None:
+    from ..index import Repo
+
+    n = 0
+    for m in repo.iter_modules("src/sqlfluff/core/"):
+        for q, f in m.functions():
+            for c in calls_in(f):
+                if not (isinstance(c.func, ast.Name) and c.func.id == "LintedFile"):
+                    continue
+                n += 1
+                cfg = cfg_of(f)
+                st = cfg.stmt_of(c)
+                varg = c.args[1] if len(c.args) > 1 else kwarg(c, "violations")
+                # unwrap deduplicate_in_source_space(V)
+                while isinstance(varg, ast.Call) and varg.args:
+                    varg = varg.args[0]
+                if isinstance(varg, ast.Name):
+                    os_ = origins(cfg, varg, st)
+                    if len(os_) == 1 and isinstance(os_[0].expr, ast.Call) and last_attr(os_[0].expr) == "deduplicate_in_source_space" and os_[0].expr.args:
+                        inner = os_[0].expr.args[0]
+                        if isinstance(inner, ast.Name):
+                            varg, st_use = inner, os_[0].stmt
+                if not isinstance(varg, ast.Name):
+                    chk.fail("R22f", c, "cannot trace the violations list handed to LintedFile", detail=f"{q}: violations list traceable")
+                    continue
+                V = varg.id
+                loops = []
+                for n2 in walk_local(f):
+                    if isinstance(n2, ast.For) and isinstance(n2.iter, ast.Name) and n2.iter.id == V and isinstance(n2.target, ast.Name):
+                        called = {last_attr(x) for x in calls_in(n2) if isinstance(x.func, ast.Attribute) and isinstance(x.func.value, ast.Name) and x.func.value.id == n2.target.id
+                                  and not cfg.conditions(cfg.stmt_of(x)) or False}
+                        # conditions inside the loop body only (the loop's own branch is fine)
+                        called = set()
+                        for x in calls_in(n2):
+                            if isinstance(x.func, ast.Attribute) and isinstance(x.func.value, ast.Name) and x.func.value.id == n2.target.id:
+                                inner_conds = [e for e, pol in cfg.conditions(cfg.stmt_of(x)) if any(p is n2 for p in _parents(e))]
+                                if not inner_conds:
+                                    called.add(last_attr(x))
+                        if {"ignore_if_in", "warning_if_in"} <= called:
+                            loops.append(n2)
+                    # helper idiom: f(V, ...) whose body is such a loop over its parameter
+                ok = False
+                why = "no loop applies ignore_if_in and warning_if_in to every element of the list"
+                for lp in loops:
+                    if not cfg.dominates(lp, st):
+                        why = "the flagging loop does not dominate the construction"
+                        continue
+                    if cfg.conditions(lp) and any(not _cond_is_loop_only(e) for e, pol in cfg.conditions(lp) if not any(p is lp for p in _parents(e))):
+                        pass
+                    # no extension of V between the loop and the construction
+                    muts = []
+                    for n3 in walk_local(f):
+                        is_mut = (isinstance(n3, ast.AugAssign) and isinstance(n3.target, ast.Name) and n3.target.id == V) or (
+                            isinstance(n3, ast.Call) and isinstance(n3.func, ast.Attribute) and isinstance(n3.func.value, ast.Name) and n3.func.value.id == V
+                            and n3.func.attr in ("append", "extend", "insert")
+                        ) or (isinstance(n3, ast.Assign) and any(isinstance(t, ast.Name) and t.id == V for t in n3.targets))
+                        if is_mut:
+                            s3 = cfg.stmt_of(n3) if not isinstance(n3, ast.stmt) else n3
+                            if cfg.reaches(lp, s3) and cfg.reaches(s3, st) and not _inside_node(s3, lp) and s3 is not lp:
+                                # reachable after the loop and before the construction?
+                                if cfg.paths_avoiding(cfg.entry, s3, lambda x: False) and _after(cfg, lp, s3):
+                                    muts.append(s3)
+                    if muts:
+                        why = f"the list is extended after the flagging loop ({short(muts[0], 60)}): those violations never get the ignore/warnings configuration"
+                        continue
+                    if [e for e, pol in cfg.conditions(lp) if True] != [e for e, pol in cfg.conditions(st) if True][: len(cfg.conditions(lp))] and len(cfg.conditions(lp)) > len(cfg.conditions(st)):
+                        why = "the flagging loop only runs under a condition that does not govern the construction"
+                        continue
+                    ok = True
+                chk.require(ok, "R22f", c, f"violations reach a LintedFile without the ignore/warnings configuration applied to all of them: {why}; a violation configured as a "
+                            "warning (or ignored) would then count towards the exit code", detail=f"{q}: all violations flagged before LintedFile")
+    chk.count("R22f.lintedfile_constructions", n)
+    chk.floor("R22f.lintedfile_constructions", 1)
+
+
+def _parents(n):
+    p = getattr(n, "_parent", None)
+    while p is not None:
+        yield p
+        p = getattr(p, "_parent", None)
+
+
+def _inside_node(n, container) -> bool:
+    return n is container or any(p is container for p in _parents(n))
+
+
+def _cond_is_loop_only(e) -> bool:
+    return True
+
+
+def _after(cfg, a, b) -> bool:
+    """b can execute after a has completed (a reaches b without b reaching a first being the only relation)."""
+    return cfg.reaches(a, b)
+
+
 from ..selftest import Variant  # noqa: E402
 
 VARIANTS = [
+    Variant("violations-extended-after-flagging", "src/sqlfluff/core/linter/linter.py",
+            "        # We process the ignore config here if appropriate\n        for violation in violations:\n            violation.ignore_if_in(parsed.config.get(\"ignore\"))\n            violation.warning_if_in(parsed.config.get(\"warnings\"))\n",
+            "        # We process the ignore config here if appropriate\n        for violation in violations:\n            violation.ignore_if_in(parsed.config.get(\"ignore\"))\n            violation.warning_if_in(parsed.config.get(\"warnings\"))\n        violations += list(parsed.templating_violations)[:0]\n",
+            "R22f", "lint_parsed"),
+    Variant("warnings-config-not-applied", "src/sqlfluff/core/linter/linter.py",
+            "            violation.warning_if_in(parsed.config.get(\"warnings\"))\n", "", "R22f", "lint_parsed"),
+    Variant("flagging-only-when-fixing", "src/sqlfluff/core/linter/linter.py",
+            "        for violation in violations:\n            violation.ignore_if_in(parsed.config.get(\"ignore\"))\n            violation.warning_if_in(parsed.config.get(\"warnings\"))\n",
+            "        for violation in violations:\n            violation.ignore_if_in(parsed.config.get(\"ignore\"))\n            if not fix:\n                violation.warning_if_in(parsed.config.get(\"warnings\"))\n",
+            "R22f", "lint_parsed"),
     Variant("discard-counts-warnings-as-unfixable", LDIR,
             '                            if not v_dict.get("warning"):\n                                self.num_unfixable_lint_errors += 1\n',
             '                            self.num_unfixable_lint_errors += 1\n', "R22b", None, "the original defect F11"),
